@@ -1336,8 +1336,7 @@ class RawGNSSAttitudeOutput(MessagePayload):
 
         initial_offset = offset
 
-        buffer = self.details.pack(buffer)
-        offset += self.details.calcsize()
+        offset += self.details.pack(buffer, offset, return_buffer=False)
 
         self._STRUCT.pack_into(
             buffer, offset,
